@@ -242,7 +242,7 @@ func (g *PipeGen) Op(kind string, s Schema, joinDepth int) (*Op, Schema) {
 		for i := 0; i < n; i++ {
 			t := Ty(g.Rng.Intn(3))
 			x := g.expr(s, t)
-			if g.Rng.Intn(4) == 0 && !(x.K == "name" || x.K == "paren") {
+			if g.Rng.Intn(4) == 0 && !(x.K == "name" || x.K == "paren") && !looksImplicit(ns) {
 				// unnamed: the column is called like its source text
 				op.Cols = append(op.Cols, Col{X: x})
 				ns = append(ns, SCol{Ident{Name: "\x00implicit"}, t, true})
@@ -326,7 +326,7 @@ func (g *PipeGen) Op(kind string, s Schema, joinDepth int) (*Op, Schema) {
 			if x == nil {
 				x = Call("count")
 			}
-			if g.Rng.Intn(3) == 0 {
+			if g.Rng.Intn(3) == 0 && !looksImplicit(ns) {
 				op.Cols = append(op.Cols, Col{X: x})
 				ns = append(ns, SCol{Ident{Name: "\x00implicit"}, TInt, true})
 			} else {
@@ -646,4 +646,17 @@ func DB(rng *rand.Rand) map[string]*RTable {
 		db[name] = t
 	}
 	return db
+}
+
+// looksImplicit reports whether a schema has a named column whose name could be
+// the source text of an expression (the count operator's "count()", say): an
+// unnamed column beside it could repeat that name, and a relation with two
+// columns of one name has no meaning to compare against.
+func looksImplicit(s Schema) bool {
+	for _, c := range s {
+		if !c.Amb && strings.ContainsAny(c.Name.Name, "()") {
+			return true
+		}
+	}
+	return false
 }
